@@ -11,6 +11,7 @@ import (
 	"strconv"
 	"strings"
 	"sync"
+	"time"
 	"unicode"
 
 	"golang.org/x/text/unicode/norm"
@@ -55,6 +56,10 @@ func (w *Worker) loadExtern(st *State, e Extern, t types.Type) Value {
 		return w.osArgs(st)
 	case "&io.EOF":
 		return eofUnion()
+	case "&time.Local":
+		return Extern{"time.Local"}
+	case "&time.UTC":
+		return Extern{"time.UTC"}
 	case "&strconv.ErrRange":
 		return mkUnion(synthErrType, ErrV{Msg: strLit("value out of range"), id: -2})
 	case "&strconv.ErrSyntax":
@@ -607,6 +612,23 @@ func (w *Worker) intrinsic(st *State, f *Frame, x ssa.Value, callee *ssa.Functio
 		text := w.sprint(st, st.sliceElems(args[1].(SliceV)), full == "fmt.Fprintln")
 		w.writeTo(st, args[0].(*Union), text, "", mkBV(0, 64))
 		set(Tuple{mkBV(0, 64), nilUnion()})
+	case "(*os.File).WriteString", "(*os.File).Write":
+		// writes to os.Stdout / os.Stderr (an Extern); each call is one event
+		ext, isExt := args[0].(Extern)
+		if !isExt {
+			panic(engineErr("write to an unknown file"))
+		}
+		var text StrV
+		if sv, ok := args[1].(StrV); ok {
+			text = sv
+		} else {
+			text = strLit(string(concreteBytes(st, args[1])))
+		}
+		w.writeTo(st, &Union{Tag: mkBV(1, 8), P: map[int]Value{1: ext}}, text, "", mkBV(0, 64))
+		set(Tuple{strByteLen(text), nilUnion()})
+	case "unicode/utf8.RuneStart":
+		b := args[0].(Term)
+		set(mkNot(mkEq(bvBin("bvand", b, mkBV(0xC0, 8), false), mkBV(0x80, 8))))
 	case "bufio.NewWriter":
 		// a buffered writer over stdout/stderr: what is written stays in the object until Flush;
 		// what is still there when the process ends is lost (the 4096-byte automatic flush is not
@@ -1092,7 +1114,67 @@ func (w *Worker) intrinsic(st *State, f *Frame, x ssa.Value, callee *ssa.Functio
 			panic(engineErr("normal form other than NFC on symbolic text"))
 		}
 	case "time.Now":
-		set(StructV{w.nondet(st, "int64", SBV64)})
+		// one instant per path (milliseconds since the epoch, below 2^42): the clock does not
+		// advance while a check runs, so two readings agree
+		if st.nowMs.S == "" {
+			st.nowMs = w.nondet(st, "int64", SBV64)
+			st.assume(bvCmp("bvsge", st.nowMs, mkBV(0, 64)))
+			st.assume(bvCmp("bvslt", st.nowMs, mkBV(1<<42, 64)))
+		}
+		set(StructV{st.nowMs})
+	case "time.Date":
+		// concrete calendar fields; a Local time lies tz hours before the same fields read as UTC
+		var f [7]int
+		for i := 0; i < 7; i++ {
+			v, ok := args[i].(Term).intVal()
+			if !ok {
+				panic(engineErr("time.Date with a symbolic field"))
+			}
+			f[i] = int(v)
+		}
+		ms := time.Date(f[0], time.Month(f[1]), f[2], f[3], f[4], f[5], f[6], time.UTC).UnixMilli()
+		loc, _ := args[7].(Extern)
+		switch loc.name {
+		case "time.UTC":
+			set(StructV{mkBV(uint64(ms), 64)})
+		case "time.Local":
+			if st.tzHours.S == "" {
+				st.tzHours = w.nondet(st, "tzhours", SBV64)
+				st.assume(bvCmp("bvsge", st.tzHours, mkBV(uint64(0xFFFFFFFFFFFFFFF4), 64))) // -12
+				st.assume(bvCmp("bvsle", st.tzHours, mkBV(14, 64)))
+			}
+			// hours * 3 600 000 ms, as shifts and adds of a value in [-12, 14]
+			off := mkBV(0, 64)
+			for h := int64(-12); h <= 14; h++ {
+				off = mkIte(mkEq(st.tzHours, mkBV(uint64(h), 64)), mkBV(uint64(h*3600000), 64), off)
+			}
+			set(StructV{bvBin("bvsub", mkBV(uint64(ms), 64), off, false)})
+		default:
+			panic(engineErr("time.Date in an unmodelled location"))
+		}
+	case "time.Since":
+		if st.nowMs.S == "" {
+			st.nowMs = w.nondet(st, "int64", SBV64)
+			st.assume(bvCmp("bvsge", st.nowMs, mkBV(0, 64)))
+			st.assume(bvCmp("bvslt", st.nowMs, mkBV(1<<42, 64)))
+		}
+		diff := bvBin("bvsub", st.nowMs, args[0].(StructV)[0].(Term), false)
+		d := st.fresh(SBV64) // the Duration in nanoseconds: only its length in ms is tracked
+		if st.durMs == nil {
+			st.durMs = map[string]Term{}
+		}
+		st.durMs[d.S] = diff
+		set(d)
+	case "(time.Duration).Seconds", "(time.Duration).Milliseconds":
+		ms, ok := st.durMs[args[0].(Term).S]
+		if !ok {
+			panic(engineErr("a Duration of unknown origin"))
+		}
+		if full == "(time.Duration).Milliseconds" {
+			set(ms)
+		} else {
+			set(fpBin("fp.div", int64ToFP(ms), mkFP(1000)))
+		}
 	case "(time.Time).UnixMilli":
 		set(args[0].(StructV)[0])
 	case "os.Exit":
